@@ -374,6 +374,39 @@ func run(real bool, ops []Op, vars []string) (fail string, judged, unjudged int)
 			}
 		}
 	}
+	// "the mock stays callable for as long as the variable holds it, even if ... garbage collections run": one
+	// more collection (with heap churn) after the history, then every callback-mocked method of a variable that
+	// holds its mock is called once more (callbacks are stateless, so the expectation is the same as above)
+	anyMock := false
+	for _, v := range vars {
+		vm := model[v]
+		anyMock = anyMock || (vm.mocked && !vm.dirty && !vm.displaced && !vm.partial)
+	}
+	if anyMock && (len(ops) == 0 || ops[len(ops)-1].K != kGC) {
+		gc()
+		for _, v := range vars {
+			vm := model[v]
+			if !vm.mocked || vm.dirty || vm.displaced || vm.partial {
+				continue
+			}
+			for _, m := range t.Methods[v] {
+				mi, ok := vm.methods[m]
+				if !ok || mi.how != kApply {
+					continue
+				}
+				var got int
+				msg, p := vk.Try(func() { got = t.Call(v, m, 8) })
+				judged++
+				if p || got != 8+mi.code {
+					g := fmt.Sprint(got)
+					if p {
+						g = "panic(" + vk.Short(msg, 70) + ")"
+					}
+					return fmt.Sprintf("dispatch: after a garbage collection at the end of the history %s.%s(8) gave %s, expected %d", v, m, g, 8+mi.code), judged, unjudged
+				}
+			}
+		}
+	}
 	return "", judged, unjudged
 }
 
